@@ -93,6 +93,7 @@ func init() {
 			return ex.nondet("repoDir", "atom")
 		},
 		ergoPath + ".zzStageFile": func(ex *Exec, c *callCtx) Value { return TupleV{} },
+		ergoPath + ".zzIsNative": func(ex *Exec, c *callCtx) Value { return BoolV{False} },
 		ergoPath + ".zzLastStat": func(ex *Exec, c *callCtx) Value {
 			if lastStat.path == nil {
 				return TupleV{E: []Value{StrLit(""), BoolV{True}, BoolV{False}}}
@@ -114,6 +115,9 @@ func init() {
 		"path/filepath.IsAbs": func(ex *Exec, c *callCtx) Value {
 			if s, ok := litOf(c.args[0]); ok {
 				return BoolV{BoolC(filepath.IsAbs(s))}
+			}
+			if b, ok := c.args[0].(BStrV); ok {
+				return BoolV{bstrPred("hasprefix", b, "/")} // unix
 			}
 			return BoolV{UF("isabs", SBool, c.args[0].(StrV).T)}
 		},
